@@ -354,7 +354,7 @@ class Supercell:
     """BOUNDED: energy per primitive cell from an N1 x 1 x 1 Gamma-centred mesh vs 1/N1 of the Gamma-point energy of the supercell for
     the mapped orbitals, every contribution separately (incl. Ewald)."""
 
-    def _case(self, seed, N1, lattice):
+    def _case(self, seed, N1, lattice, sheared_from=None):
         import dataclasses
 
         from eminus import SCF, Atoms
@@ -367,10 +367,24 @@ class Supercell:
         frac = np.array([[0.1, 0.2, 0.15], [0.55, 0.5, 0.6]])
         pos = frac @ a
         s = np.array([9, 9, 11])
-        prim = Atoms(["Si", "He"], pos, ecut=3, a=a)
-        prim.s = list(s)
-        prim.kpts.kmesh = [N1, 1, 1]
-        prim.kpts.gamma_centered = True
+        if sheared_from is None:
+            prim = Atoms(["Si", "He"], pos, ecut=3, a=a)
+            prim.s = list(s)
+            prim.kpts.kmesh = [N1, 1, 1]
+            prim.kpts.gamma_centered = True
+        else:
+            # the primitive object was built for ANOTHER cell of the same volume (sheared_from) and got the cell `a` and the positions by assignment
+            a0 = np.asarray(sheared_from, float)
+            if abs(abs(np.linalg.det(a0)) - abs(np.linalg.det(a))) > 1e-9 * abs(np.linalg.det(a)):
+                raise RuntimeError("harness: the two cells do not have the same volume")
+            prim = Atoms(["Si", "He"], frac @ a0, ecut=3, a=a0)
+            prim.s = list(s)
+            prim.kpts.kmesh = [N1, 1, 1]
+            prim.kpts.gamma_centered = True
+            prim.build()
+            prim.a = a
+            prim.pos = pos
+            prim.s = list(s)
         sp = SCF(prim, xc="pbe", verbose="critical")
         ap = sp.atoms
         asup_a = a * np.array([[N1], [1], [1]])
@@ -421,10 +435,21 @@ class Supercell:
                 wit = dict(seed=seed, N1=N1, lattice=lat)
                 return Result(REFUTED, backend="native", witness=wit, replayed=True, replay_info=info,
                               detail=f"the {N1}x1x1 mesh energy per cell differs from the supercell energy / {N1} by {w:.2e} ({lat} cell)")
+        # the triclinic cell reached by a volume-conserving shear assigned to an object that was built for the unsheared cell
+        shear = np.array([[1.0, 0.0, 0.0], [0.25, 1.0, 0.0], [-0.15, 0.3, 1.0]])
+        (w,), info = self._case(seed, 2, "triclinic", sheared_from=A_TRI @ np.linalg.inv(shear))
+        worst = max(worst, w)
+        if w > 1e-8 or info.get("missing_plane_waves"):
+            wit = dict(seed=seed, N1=2, lattice="triclinic", sheared=True)
+            return Result(REFUTED, backend="native", witness=wit, replayed=True, replay_info=info,
+                          detail=f"after a volume-conserving change of the cell on a built object the 2x1x1 mesh energy per cell differs from the supercell energy / 2 by {w:.2e}")
         return Result(BOUNDED_OK, backend="native", detail=f"bounded: every energy contribution of the k-mesh calculation equals supercell / N to {worst:.1e}")
 
     def replay(self, wit):
-        (w,), info = self._case(wit["seed"], wit["N1"], wit["lattice"])
+        sh = None
+        if wit.get("sheared"):
+            sh = A_TRI @ np.linalg.inv(np.array([[1.0, 0.0, 0.0], [0.25, 1.0, 0.0], [-0.15, 0.3, 1.0]]))
+        (w,), info = self._case(wit["seed"], wit["N1"], wit["lattice"], sheared_from=sh)
         return bool(w > 1e-8 or info.get("missing_plane_waves")), info
 
 
